@@ -8,6 +8,13 @@ use std::time::Instant;
 
 pub const VERIF: &str = "/verif";
 
+/// Where a run writes its scratch files, replays and (unless VERIF_EVIDENCE_DIR is set) evidence.
+/// `/verif` unless VERIF_SCRATCH is set: parallel runs against scratch copies of the repository
+/// (tools/mutants.py) each get their own directory. `known_findings.txt` is always /verif's.
+pub fn scratch_root() -> String {
+    std::env::var("VERIF_SCRATCH").unwrap_or_else(|_| VERIF.to_string())
+}
+
 #[derive(Clone, Copy, Debug, PartialEq, Eq)]
 pub enum Tier {
     Quick,
@@ -328,7 +335,7 @@ impl Run {
     /// Writes evidence, replay files and VIOLATION / KNOWN-FINDING lines. Returns the exit code.
     pub fn finish(self, st: Stats) -> i32 {
         let known = load_known();
-        let dir = PathBuf::from(format!("{VERIF}/replays/{}", self.prop));
+        let dir = PathBuf::from(format!("{}/replays/{}", scratch_root(), self.prop));
         let mut new_violations = 0;
         let mut known_hits = 0;
         let mut lines = Vec::new();
@@ -399,6 +406,15 @@ impl Run {
                 }
             }
         }
+        let mut loom_violations = 0u64;
+        if let Ok(p) = std::env::var("VERIF_LOOM_EVIDENCE") {
+            // second explorer (loom, /verif/loomchk) run by ./check before this engine
+            if let Ok(v) = std::fs::read_to_string(&p).map_err(|_| ()).and_then(|s| serde_json::from_str::<Value>(&s).map_err(|_| ())) {
+                loom_violations = v["violations"].as_u64().unwrap_or(0);
+                cov.insert("loom_crosscheck".into(), v);
+            }
+        }
+        let new_violations = new_violations + loom_violations as usize;
         let ev = json!({
             "property_id": self.prop,
             "tier": self.tier.name(),
@@ -411,7 +427,7 @@ impl Run {
             "violation_instances": st.violation_count,
             "known_findings_hit": known_hits,
         });
-        let evdir = std::env::var("VERIF_EVIDENCE_DIR").unwrap_or(format!("{VERIF}/evidence"));
+        let evdir = std::env::var("VERIF_EVIDENCE_DIR").unwrap_or(format!("{}/evidence", scratch_root()));
         let _ = std::fs::create_dir_all(&evdir);
         std::fs::write(
             format!("{evdir}/{}.json", self.prop),
